@@ -52,17 +52,22 @@ class SingleFieldSubscriptionsRule(ValidationRule):
                 for definition in document.definitions
                 if isinstance(definition, FragmentDefinitionNode)
             }
-            grouped_field_set, _new_defer_usages, forbidden_directive_instances = (
-                collect_fields(
-                    schema,
-                    fragments,
-                    variable_values,
-                    subscription_type,
-                    node,
-                    self.context.hide_suggestions,
-                    True,
+            try:
+                grouped_field_set, _new_defer_usages, forbidden_directive_instances = (
+                    collect_fields(
+                        schema,
+                        fragments,
+                        variable_values,
+                        subscription_type,
+                        node,
+                        self.context.hide_suggestions,
+                        True,
+                    )
                 )
-            )
+            except GraphQLError:
+                # The fields cannot be collected if a directive has invalid arguments,
+                # which is reported by the rules that validate the argument values.
+                return
             if forbidden_directive_instances:
                 self.report_error(
                     GraphQLError(
